@@ -26,6 +26,9 @@ inductive Expr where
   | log (e : Expr)              -- host function call log(e)
   | typeofVar (x : String)
   | objLit (fields : List (String × Int))   -- {k: n, …}: a fresh object with number-valued properties
+  | callId (e : Expr)                       -- __blk(e): a SCRIPT function returning its argument; its body runs
+                                            -- labelled blocks and loops of its own (it must not disturb the caller's
+                                            -- pending label set)
 deriving Repr, Inhabited
 
 mutual
